@@ -143,6 +143,21 @@ def observe(m, cls, X):
             return (c.forward(X) if direction == 'f' else c.inverse(X))[0]
         obs['cached_forward'] = _try(lambda: cached('f'))
         obs['cached_inverse'] = _try(lambda: cached('i'))
+
+        def reloaded(direction):
+            # a layer of a larger model: its cache was filled under OTHER weights, then these weights arrive through the enclosing
+            # module's load_state_dict; the cached passes must describe the same affine map as the accessors
+            c = copy.deepcopy(m).eval()
+            for q in c.parameters():
+                q.add_(0.3)
+            c.use_cache(True)
+            c.forward(X); c.inverse(X)
+            outer = torch.nn.ModuleList([c])
+            outer.load_state_dict({'0.' + k: v for k, v in m.state_dict().items()})
+            return (c.forward(X) if direction == 'f' else c.inverse(X))[0]
+        if not is_err(obs['cached_forward']) and not is_err(obs['cached_inverse']):
+            obs['reloaded_forward'] = _try(lambda: reloaded('f'))
+            obs['reloaded_inverse'] = _try(lambda: reloaded('i'))
         if cls == 'LULinear' and hasattr(m, '_create_lower_upper'):
             r = _try(lambda: m._create_lower_upper())
             if not is_err(r):
@@ -179,7 +194,7 @@ def model_obs(cls, resp, f, N, prec):
     ld = ld[0] if ld else float('nan')
     out.update({'weight': W, 'weight_inverse': Wi, 'logabsdet': [ld], 'wal_w': W, 'wal_ld': [ld], 'wial_wi': Wi, 'wial_ld': [ld],
                 'forward': fw, 'forward_ld': [ld] * N, 'inverse': iv, 'inverse_ld': [-ld] * N,
-                'cached_forward': fw, 'cached_inverse': iv})
+                'cached_forward': fw, 'cached_inverse': iv, 'reloaded_forward': fw, 'reloaded_inverse': iv})
     if cls == 'LULinear':
         out['L'], out['U'] = d(5), d(6)
     return out
@@ -233,14 +248,14 @@ def compare(ctx, case, cls, obs, mod, merr, kappa, prec, nontriv):
                              'implementation raised, model did not (or a different kind)')
             continue
         ctx.case(key=key, branch='%s/%s/%s' % (cls, case['params'], name), nontrivial=nontriv)
-        if merr and name in ('weight_inverse', 'wial_wi', 'cached_inverse', 'wial_ld'):
+        if merr and name in ('weight_inverse', 'wial_wi', 'cached_inverse', 'wial_ld', 'reloaded_inverse'):
             ctx.disagree('c11/' + cls, dict(case, observable=name), 'value', merr, 'model raised, implementation returned a value')
             continue
         iv = [float(a) for a in v.detach().double().reshape(-1).tolist()]
         mv = mod.get(name)
         if mv is None:
             continue
-        if case['params'] == 'zero-weight' and name == 'inverse':
+        if case['params'] == 'zero-weight' and name in ('inverse', 'reloaded_inverse'):
             # singular weight: lu_solve returns non-finite values; only the finiteness pattern is compared
             iv = [1.0 if math.isfinite(a) else 0.0 for a in iv]
             mv = [1.0 if math.isfinite(a) else 0.0 for a in mv]
@@ -533,7 +548,9 @@ def correspondence(ctx):
 # ---- the property's own oracle on the implementation -----------------------------------------------------------
 ACCESSOR = {'wial_wi': 'weight_inverse_and_logabsdet', 'wial_ld': 'weight_inverse_and_logabsdet',
             'wal_w': 'weight_and_logabsdet', 'wal_ld': 'weight_and_logabsdet', 'forward_ld': 'forward', 'inverse_ld': 'inverse',
-            'cached_forward': 'forward(use_cache)', 'cached_inverse': 'inverse(use_cache)'}
+            'cached_forward': 'forward(use_cache)', 'cached_inverse': 'inverse(use_cache)',
+            'reloaded_forward': 'forward(use_cache) after load_state_dict of the enclosing module',
+            'reloaded_inverse': 'inverse(use_cache) after load_state_dict of the enclosing module'}
 
 
 def oracle_module(m, cls, X, prec, kappa=None):
@@ -601,6 +618,10 @@ def oracle_module(m, cls, X, prec, kappa=None):
             out.append(('cache', 'forward through the cache differs from forward_no_cache', {}))
         if (obs['cached_inverse'] - obs['inverse']).abs().max() > tt * (1 + float(obs['inverse'].abs().max())):
             out.append(('cache', 'inverse through the cache differs from inverse_no_cache', {}))
+        if 'reloaded_forward' in obs and not is_err(obs['reloaded_forward']) and (obs['reloaded_forward'] - obs['forward']).abs().max() > tt * sc:
+            out.append(('cache', 'cached forward after the enclosing module loaded these weights differs from forward_no_cache (cache filled under the previous weights)', {'history': 'container-load'}))
+        if 'reloaded_inverse' in obs and not is_err(obs['reloaded_inverse']) and (obs['reloaded_inverse'] - obs['inverse']).abs().max() > tt * (1 + float(obs['inverse'].abs().max())):
+            out.append(('cache', 'cached inverse after the enclosing module loaded these weights differs from inverse_no_cache (cache filled under the previous weights)', {'history': 'container-load'}))
         for attr in ('orthogonal', 'orthogonal_1', 'orthogonal_2'):
             if hasattr(m, attr):
                 Q = getattr(m, attr).matrix()
